@@ -187,6 +187,31 @@ def gen_cases(rng, n):
     return cases
 
 
+UNDEF_STATES = ["set", "none", "unset"]
+
+
+def undef_cases(rng, n):
+    """classes with _enable_undefined_value: an Optional field may be set, explicitly None, or left out
+    (Undefined) - three states the serialized form tells apart (value / null / no key) and the round trip must keep"""
+    leaves = sorted(LEAVES)
+    out = []
+    for ci in range(n):
+        fields = [{"name": f"f{fi}", "leaf": rng.choice(leaves), "wrap": rng.choice(["optional", "optional", "optional-union"]),
+                   "picks": [rng.randrange(8)], "unset": False, "state": rng.choice(UNDEF_STATES)} for fi in range(rng.randint(1, 3))]
+        out.append({"suite": "extras", "fields": fields, "ignore_none": rng.random() < 0.2, "nested": rng.random() < 0.25, "undef": True})
+    return out
+
+
+def directed_undef_cases():
+    out = []
+    for leaf in sorted(LEAVES):
+        for state in UNDEF_STATES:
+            out.append({"suite": "extras", "fields": [{"name": "f0", "leaf": leaf, "wrap": "optional", "picks": [0], "unset": False, "state": state},
+                                                       {"name": "f1", "leaf": "integer", "wrap": "optional", "picks": [0], "unset": False, "state": "none"}],
+                        "ignore_none": False, "nested": False, "undef": True})
+    return out
+
+
 def directed_cases():
     """every leaf x every wrapper once, with the falsy member first"""
     out = []
@@ -232,11 +257,15 @@ def run_impl(case):
         for f in case["fields"]:
             body[f["name"]] = build_field(f["leaf"], f["wrap"])
             exact = exact and LEAVES[f["leaf"]][2]
-            if not f.get("unset"):
+            if f.get("state") == "none":
+                kw[f["name"]] = None
+            elif not f.get("unset") and f.get("state") != "unset":
                 kw[f["name"]] = build_value(f["leaf"], f["wrap"], f["picks"] or [0])
         body["_required"] = [f["name"] for f in case["fields"] if f["wrap"] not in ("optional", "optional-union")]
         if case.get("ignore_none"):
             body["_ignore_none"] = True
+        if case.get("undef"):
+            body["_enable_undefined_value"] = True
         if case.get("compact"):
             body["_additional_properties"] = False
             cls = type("X", (Structure,), body)
@@ -319,6 +348,11 @@ def _run_built(case, cls, kw, exact, outer):
                              else "ValueError" if isinstance(e, ValueError) else type(e).__name__, "msg": str(e)[:200]}
         return res
     res["equal"] = bool(y == x)
+    if case.get("undef"):
+        from typedpy.commons import Undefined
+        xi, yi = (x.inner, y.inner) if outer is not None else (x, y)
+        st = lambda o, n: "none" if getattr(o, n) is None else "unset" if getattr(o, n) is Undefined else "set"
+        res["states"] = [[f["name"], st(xi, f["name"]), st(yi, f["name"])] for f in case["fields"]]
     if "xline" in res:
         res["x_back"] = {"ok": xwire(y)}
     try:
@@ -360,6 +394,10 @@ def judge(case, impl):
     if "deser_exc" in impl:
         fails.append((f"extras:roundtrip-raises:{site}", f"Deserializer rejected the serialization of a valid instance {impl.get('doc')}: {impl['deser_exc']}"))
         return fails
+    for name, before, after in impl.get("states", []):
+        if before != after:
+            fails.append((f"extras:undefined-state-lost:{before}->{after}:{site}",
+                          f"_enable_undefined_value: field {name} was {before} before the round trip and is {after} after it ({impl.get('doc')})"))
     if impl.get("exact") and impl.get("equal") is not True:
         fails.append((f"extras:roundtrip-not-equal:{site}", f"deserialize(serialize(x)) != x for {impl.get('doc')}"))
     if impl.get("fixpoint") is not True:
@@ -377,7 +415,7 @@ def gen_corrupt_cases(rng, n):
     an ill-formatted string: the Deserializer must accept it or reject it with TypeError/ValueError"""
     cases = []
     for c in gen_cases(rng, n):
-        c = dict(c, suite="extras-corrupt", nested=False, corrupt=[rng.randrange(len(c["fields"])), rng.randrange(len(CORRUPTIONS)), rng.randrange(4)])
+        c = dict(c, suite="extras-corrupt", nested=bool(c.get("nested")) and not c.get("compact"), corrupt=[rng.randrange(len(c["fields"])), rng.randrange(len(CORRUPTIONS)), rng.randrange(4)])
         cases.append(c)
     return cases
 
@@ -562,11 +600,15 @@ def _build_plain(case):
     body, kw = {}, {}
     for f in case["fields"]:
         body[f["name"]] = build_field(f["leaf"], f["wrap"])
-        if not f.get("unset"):
+        if f.get("state") == "none":
+            kw[f["name"]] = None
+        elif not f.get("unset") and f.get("state") != "unset":
             kw[f["name"]] = build_value(f["leaf"], f["wrap"], f["picks"] or [0])
     body["_required"] = [f["name"] for f in case["fields"] if f["wrap"] not in ("optional", "optional-union")]
     if case.get("ignore_none"):
         body["_ignore_none"] = True
+    if case.get("undef"):
+        body["_enable_undefined_value"] = True
     return type("X", (Structure,), body), kw
 
 
@@ -576,11 +618,11 @@ def image_doc(case, kw):
 
 def image_cases(rng, n):
     """the image of a valid instance, uncorrupted: must be accepted, with the instance it came from"""
-    return [dict(c, suite="extras-corrupt", nested=False, corrupt=None) for c in gen_cases(rng, n) if not c.get("compact")]
+    return [dict(c, suite="extras-corrupt", corrupt=None) for c in gen_cases(rng, n) + undef_cases(rng, max(10, n // 5)) if not c.get("compact")]
 
 
 def directed_image_cases():
-    return [dict(c, suite="extras-corrupt", corrupt=None) for c in directed_cases()] + \
+    return [dict(c, suite="extras-corrupt", corrupt=None) for c in directed_cases() + directed_undef_cases()] + \
         [dict(c, suite="extras-corrupt", corrupt=None, fields=[dict(c["fields"][0], picks=[1, 0, 1])]) for c in directed_cases()]
 
 
@@ -621,13 +663,16 @@ def run_exact(case):
         res["site"] = f"{case['fields'][fi]['wrap']}>{case['fields'][fi]['leaf']}"
         res["nan"] = CORRUPTIONS[ci] in NAN_STRINGS and case["fields"][fi]["leaf"] == "decimal-bounded"
     res["doc"] = repr(doc)[:300]
+    nested = bool(case.get("nested"))
     # an array for a Set field holding values that are == but of different JSON type (0.0 / false): as a Python set
     # they collapse before the constructor can see them, so 'the set this array denotes' is ambiguous
     res["ambiguous_set"] = any(f["wrap"] == "set" and isinstance(doc.get(f["name"]), list) and _crosstype(doc[f["name"]]) for f in case["fields"])
     # the constructor on the lifted document
     alts = []
     for f in case["fields"]:
-        if f["name"] not in doc or doc[f["name"]] is None:
+        if f["name"] in doc and doc[f["name"]] is None and case.get("undef"):
+            alts.append([("v", None)])          # _enable_undefined_value: a null is an explicit None, not an absent key
+        elif f["name"] not in doc or doc[f["name"]] is None:
             alts.append([("absent", None)])
         else:
             alts.append([("v", a) for a in lift(SHAPES[f["wrap"]], f["leaf"], doc[f["name"]])])
@@ -641,6 +686,15 @@ def run_exact(case):
         except Exception as e:
             res["ctor_exc"] = type(e).__name__
             continue
+    if nested:
+        # the same class one level down: Outer(inner: X, tag: String); document {"inner": <doc>, "tag": ""}
+        outer = type("Outer", (Structure,), {"inner": cls, "tag": String(), "_required": ["inner"]})
+        doc = {"inner": doc, "tag": ""}
+        x = outer(inner=x, tag="")
+        if expected is not None:
+            expected = outer(inner=expected, tag="")
+        cls = outer
+        res["doc"] = repr(doc)[:300]
     res["ctor"] = "accepted" if expected is not None else "rejected"
     y = None
     try:
@@ -654,7 +708,7 @@ def run_exact(case):
         res["msg"] = str(e)[:200]
         res["x_deser"] = {"err": "InvalidStructureErr" if type(e).__name__ == "InvalidStructureErr" else "TypeError" if isinstance(e, TypeError)
                           else "ValueError" if isinstance(e, ValueError) else type(e).__name__, "msg": str(e)[:200]}
-    xcls = xdecl_class(case)
+    xcls = xdecl_class(case, nested=nested)
     if xcls is not None:
         try:
             from .. import dump
@@ -714,6 +768,36 @@ BASE_LEAVES = {"integer": {"k": "integer"}, "string": {"k": "string"}, "float": 
                "string-jsonlike": {"k": "string"}}
 
 
+def _fmt_date(sv):
+    try:
+        datetime.datetime.strptime(sv, "%Y-%m-%d")
+        return True
+    except ValueError:
+        return False
+
+
+def _fmt_time(sv):
+    try:
+        datetime.datetime.strptime(sv, "%H:%M:%S")
+        return True
+    except ValueError:
+        return False
+
+
+def _fmt_ipv4(sv):
+    import re
+    return bool(re.match(r"^\d{1,3}\.\d{1,3}\.\d{1,3}\.\d{1,3}$", sv)) and all(0 <= int(c) <= 255 for c in sv.split("."))
+
+
+def _fmt_host(sv):
+    import re
+    return bool(re.match(r"^[A-Za-z0-9][A-Za-z0-9\.\-]{1,255}$", sv)) and all(len(c) <= 63 for c in sv.split("."))
+
+
+# the documented format of the formatted-string fields, stated independently of typedpy (the model's fmtOk oracle)
+FMT_KINDS = {"datestring": _fmt_date, "timestring": _fmt_time, "ipv4": _fmt_ipv4, "hostname": _fmt_host}
+
+
 def xdecl_leaf(leaf):
     from .. import dump
     if leaf == "decimal":
@@ -727,8 +811,13 @@ def xdecl_leaf(leaf):
     if leaf.startswith("enum-by-name:"):
         ecls = ENUMS[leaf.split(":")[1]]
         if issubclass(ecls, (int, str)):
-            return None     # members equal to their values: the core enumCls declaration does not carry that
+            # members equal to their values: the constructor also accepts the raw value (and keeps it)
+            return {"k": "enumName", "cls": ecls.__name__, "members": [[m.name, dump.dump_value(m.value)] for m in ecls], "mixin": True}
         return {"k": "base", "f": {"k": "enumCls", "cls": ecls.__name__, "names": [m.name for m in ecls]}}
+    if leaf in FMT_KINDS:
+        return {"k": "fmtStr", "kind": leaf, "strict": leaf != "timestring"}
+    if leaf == "email":
+        return {"k": "base", "f": {"k": "string", "pattern": EmailAddress.pattern}}
     if leaf in TEMPORAL:
         ty, fmt, ints = TEMPORAL[leaf]
         return {"k": "temporal", "ty": ty, "fmt": fmt, "ints": ints}
@@ -760,8 +849,8 @@ def xdecl_shape(shape, leafdecl):
 
 
 def xdecl_class(case, nested=False):
-    if case.get("compact"):
-        return None
+    if case.get("compact") or case.get("undef"):
+        return None      # (compact wrappers and the None / Undefined distinction are not in the Lean model)
     fields = []
     for f in case["fields"]:
         leafdecl = xdecl_leaf(f["leaf"])
@@ -864,7 +953,19 @@ def xtables(case, values, docs):
                 ps.append([ty, fmt, sv, xwire(dt if ty == "datetime" else dt.date())["x"]])
             except ValueError:
                 ps.append([ty, fmt, sv, None])
-    return {"toFloat": tf, "format": fm, "parse": ps}
+    fo = [[f["leaf"], sv, bool(FMT_KINDS[f["leaf"]](sv))] for f in case["fields"] if f["leaf"] in FMT_KINDS for sv in sorted(set(strs))]
+    import re as _re
+    rt = [[EmailAddress.pattern, sv, _re.compile(EmailAddress.pattern).match(sv) is not None] for sv in sorted(set(strs))] \
+        if any(f["leaf"] == "email" for f in case["fields"]) else []
+    ds = []
+    if any(f["leaf"].startswith("decimal") for f in case["fields"]):
+        for sv in sorted(set(strs)):
+            try:
+                dv = decimal.Decimal(sv)
+                ds.append([sv, dump.q_of(dv) if dv.is_finite() else None])
+            except decimal.InvalidOperation:
+                ds.append([sv, False])
+    return {"toFloat": tf, "format": fm, "parse": ps, "fmtOk": fo, "re": rt, "decOfStr": ds}
 
 
 XOPTS = {"keepUndefined": True, "ignoreInvalidAddl": True}
